@@ -31,6 +31,20 @@ CHECKS = {
             "Mutations only after the group's init on that table; calculators without a table argument (D2O_sld, fasta) are not "
             "judged on private tables; one recorded finding (shared class-level Neutron placeholder) is excluded by bucket.",
             "DESIGN.md section 4 C10"),
+    "C06": ("exhaustive sweep of the embedded mass/abundance/density tables against independent source-text readers "
+            "(ast/regex/Decimal) in 5 table configurations + Hypothesis search over uncertainty-notation strings",
+            "Every row of isotope_mass, element_mass, isotope_abundance and the density table, and every nuclide not listed, "
+            "is compared bit-identically (or within the stated tolerance for derived quantities) with an independent reading "
+            "of the source text, for the public table and private tables initialised before/after it; parse_uncertainty is "
+            "searched with generated value(unc)/[a]/[a,b] strings. The sweep is exhaustive over the finite tables.",
+            "The table text in mass.py/density.py is the specification; Decimal arithmetic is trusted.",
+            "DESIGN.md section 4 C06"),
+    "C07": ("exhaustive sweep of the neutron tables (364 rows, imaginary table, all energy-table nodes, all atoms without "
+            "a row) against an independent reader addressed by column name, in 5 table configurations",
+            "Every served field of every row equals float(<bare number>) of the independently read cell; gap fills, complex "
+            "b_c, sole-isotope elements, missing atoms and every node of the 14 energy tables are checked, scalar and vector.",
+            "The table text in nsf.py/nsf_tables.py is the specification; Pu/Cm element records are not judged.",
+            "DESIGN.md section 4 C07"),
 }
 
 PENDING = {}
